@@ -22,6 +22,14 @@ def run(ck, tier, seed):
             continue
         if "parse" in o:
             continue
+        if o.get("crash"):
+            # the whole process went down while this program ran (stack overflow, unrecovered panic, out of memory)
+            ck.cov["evaluations"] += 1
+            sig = "process-crash/%s/%s" % ("/".join(p["tags"][:3]) if p["tags"][0] != "random" else "random", o["crash"].split(":")[1].strip()[:30] if ":" in o["crash"] else o["crash"][:30])
+            if sig not in seen:
+                seen.add(sig)
+                ck.mismatch(sig, {"src": c["src"], "vars": p["vars"], "what": o["crash"], "runtime_report": o["excerpt"][:1800]}, replay={"kind": "lang", "prog": p})
+            continue
         n += 1
         for eng in ("interp", "vm0", "vm1", "vm2", "vm0p", "vm1p", "vm2p"):
             ob = o.get(eng)
@@ -63,6 +71,8 @@ def run(ck, tier, seed):
                     bad = "evaluation error answered with status %d: %s" % (status, body.strip()[:120])
                 elif h == "httpI":
                     bad = "evaluation error answered with status %d: %s" % (status, body.strip()[:120])
+            elif 200 <= status < 300 and body.strip() == '{"error":"Internal server error"}':
+                bad = "2xx carries the generic error body: a failure reported as success"
             elif status >= 500 and body.strip() not in ('{"error":"Internal server error"}',) and not (spec_kind == "value" and c["out"].get("st", 200) >= 500):
                 # (a 5xx the program itself asks for - `> body :: 503`, a failing guard - carries the program's body)
                 bad = "5xx body is not the generic one: " + body.strip()[:160]
